@@ -157,7 +157,13 @@ def handleIO (f : String) (j : Json) : IO (Option Json) := do
       let url := s j "url"
       let sfx := fieldBool j "strip_suffix"
       match parsedOpt j with
-      | none => jerr (if (lower url).length = 5 then "AttributeError" else "ValueError")
+      | none =>
+        -- the parser refused: the model functions themselves (`parse` is the constant `none` here)
+        match fingerprintUrlSplit E sfx url, fingerprintUrl E sfx url with
+        | .ok (.inl u), .ok str => jlist [out u, out str]
+        | .ok (.inr r'), .ok str => jlist [splitJson r', out str]
+        | .error e, _ => exceptJson (.error e)
+        | _, .error e => exceptJson (.error e)
       | some p =>
         let r := normParts E.puny fpOpts (fieldBool j "has_protocol") p
         exceptJson ((fpParts E sfx r).map fun r' => jlist [splitJson r',
